@@ -106,6 +106,10 @@ func matcherResolver(bi *BasmInstance) error {
 			secChoices := make([][]string, 0)
 			for k := range sectAlts {
 				secAltsKeys = append(secAltsKeys, k)
+			}
+			// The alternative sections are numbered in the order of the choices: keep it fixed
+			slices.Sort(secAltsKeys)
+			for _, k := range secAltsKeys {
 				secChoices = append(secChoices, sectAlts[k])
 			}
 
